@@ -134,7 +134,8 @@ def showObs (s : St) : String :=
   let share := if s.sup = 0 then "na" else toString (shareOf s shareAmt)
   s!"bal={s.bal} pend={s.pend} all={s.allTime} burned={s.burned} sup={s.sup} lpv={s.lpVault} ctr={s.ctr} " ++
   s!"ab={showList s.ab} lb={showList s.lb} asup={s.assetSupply} share={share} pb={payback s 1000000007} " ++
-  s!"tog={b2n s.depOn}{b2n s.wdOn}{b2n s.flOn} fees={s.fees.prot},{s.fees.flash},{s.fees.burn}"
+  s!"tog={b2n s.depOn}{b2n s.wdOn}{b2n s.flOn} fees={s.fees.prot},{s.fees.flash},{s.fees.burn} " ++
+  s!"junk={showList s.jb}"
 
 def initSt (ws : List String) : Option St := do
   let m := kvs ws
@@ -146,7 +147,7 @@ def initSt (ws : List String) : Option St := do
   if bals.length ≠ 6 then none
   else some (Vault.init kind { prot := p, flash := f, burn := b } bals)
 
-def parseOp (ws : List String) : Option Op :=
+def parseBase (ws : List String) : Option Op :=
   match ws with
   | ["deposit", a, b, c] => do pure (.deposit (← a.toNat?) (← b.toNat?) (← c.toNat?))
   | ["withdraw", a, b] => do pure (.withdraw (← a.toNat?) (← b.toNat?))
@@ -174,8 +175,52 @@ def parseOp (ws : List String) : Option Op :=
     if w ≥ 4 then none else pure (.foreign 2 w old n)
   | _ => none
 
+/-- the sender of a message (who pays coins attached to it): 0..3 the accounts, 6 the vault's owner;
+    `none`: not a message that can carry a stray-coin suffix -/
+def senderOf : Op → Option Nat
+  | .deposit w _ _ => some w
+  | .collect => some 1
+  | .setFees _ => some 6
+  | .setToggles _ _ _ => some 6
+  | .loan _ _ => some 3
+  | .routerLoan w _ _ => some w
+  | .routerLoanNone w _ => some w
+  | .routerLoanMulti w _ _ _ => some w
+  | .nextLoanBy w _ _ => some w
+  | .completeLoanBy w _ _ => some w
+  | .foreign 2 w _ _ => some w
+  | _ => none
+
+/-- `+<sel>:<amount>`: sel 0 = the vault asset's own native denom, 1 = the unrelated denom -/
+def parseStray (t : String) : Option (Nat × Nat) :=
+  match t.toList with
+  | '+' :: rest =>
+    match (String.ofList rest).splitOn ":" with
+    | [a, b] => do
+      let sel ← a.toNat?; let n ← b.toNat?
+      if sel > 1 ∨ n = 0 then none else pure (sel, n)
+    | _ => none
+  | _ => none
+
+/-- an op line, optionally ending in a stray-coin token `+<sel>:<amount>` (coins attached to the
+    message by its sender). Coins of the asset's denom attached to a native vault's `Deposit` are the
+    deposit's `sent`. -/
+def parseOp (s : St) (ws : List String) : Option Op :=
+  match ws.getLast? with
+  | none => none
+  | some t =>
+    if t.startsWith "+" then do
+      let (sel, n) ← parseStray t
+      let op ← parseBase ws.dropLast
+      let who ← senderOf op
+      match op with
+      | .deposit w a sent =>
+        if sel = 0 ∧ s.kind = 0 then pure (.deposit w a (sent + n)) else pure (.attach who sel n op)
+      | _ => pure (.attach who sel n op)
+    else parseBase ws
+
 def stepLine (s : St) (ws : List String) : St × String :=
-  match parseOp ws with
+  match parseOp s ws with
   | none => (s, "bad-op")
   | some op =>
     match step s op with
